@@ -10,7 +10,13 @@
 //	                 close, read after close, close again)
 //	environment    = every answer of the scripted underlying stream at every Read it receives
 //	                 (full / 1 byte / all but one / data together with the terminal /
-//	                 zero-length read), up to a bound on non-default answers
+//	                 zero-length read) and at every Close it receives (nil / error),
+//	                 up to a bound on non-default answers
+//	several requests = two (thorough: also three) requests alive in the same process, their
+//	                 operations interleaved in every order up to a depth, bodies chosen to
+//	                 collide (byte-less or erroring body next to bodies with distinct content);
+//	                 each request is judged by its own reference model, so any state the
+//	                 implementation shares between requests shows as a deviation
 //
 // Every (configuration, history, environment) triple is executed on the real
 // runtime.HasBody / peekingReader and compared, after every single operation,
@@ -46,6 +52,7 @@ import (
 var (
 	errInjected = errors.New("injected stream error")
 	errClosed   = errors.New("scripted stream: read after close")
+	errCloseErr = errors.New("scripted stream: close failed")
 )
 
 // stream delivers data and then term (sticky). Every Read with a non-empty
@@ -55,7 +62,11 @@ var (
 //	rem > 0:  [m = min(len(p), rem) bytes] [1 byte, if m > 1] [m-1 bytes, if m > 2]
 //	          [m bytes together with the terminal, if m == rem] [(0, nil), while the budget lasts]
 //	rem == 0: [terminal] [(0, nil), while the budget lasts]
+//
+// Every Close it receives is a choice point too: [nil] [error]. Whatever it answers, it counts
+// as a close of the stream (reads fail afterwards), as for a connection whose teardown reports an error.
 type stream struct {
+	site       string // name of the choice sites (one stream per request)
 	data       []byte
 	term       error
 	c          *choice.Chooser
@@ -67,6 +78,7 @@ type stream struct {
 	reads          int
 	readsAfterCl   int
 	termDelivered  bool
+	closeErrs      int
 	maxReadRequest int
 }
 
@@ -125,7 +137,7 @@ func (s *stream) Read(p []byte) (int, error) {
 	}
 	o := opts[0]
 	if n > 1 {
-		o = opts[s.c.Choose("stream.Read", n)]
+		o = opts[s.c.Choose(s.site+".Read", n)]
 	}
 	k := 0
 	switch o {
@@ -153,6 +165,10 @@ func (s *stream) Read(p []byte) (int, error) {
 
 func (s *stream) Close() error {
 	s.closes++
+	if s.c.Choose(s.site+".Close", 2) == 1 {
+		s.closeErrs++
+		return errCloseErr
+	}
 	return nil
 }
 
@@ -230,15 +246,31 @@ const (
 var opNames = [nOps]string{"HasBody", "Read(0)", "Read(1)", "Read(2)", "Read(4096)", "Close", "Read(4095)", "Read(8192)"}
 var opReadSize = [nOps]int{-1, 0, 1, 2, 4096, -1, 4095, 8192}
 
-// Case is the replayable form of one execution.
+// Case is the replayable form of one execution. The top-level body/term/mode describe request A;
+// More lists requests B, C ... of a several-request history, whose operations are spelled "B.HasBody".
 type Case struct {
-	BodyLen    int      `json:"body_len"` // -1: the request has no body object at all (nil)
-	Term       string   `json:"term"`     // "EOF" or "ERR" (sticky injected error after the last byte)
-	Mode       string   `json:"mode"`
-	Ops        []string `json:"ops"`
-	ZeroBudget int      `json:"zero_budget"`
-	Choices    []int    `json:"choices"` // answers of the underlying stream's choice points, in order
+	BodyLen    int       `json:"body_len"` // -1: the request has no body object at all (nil)
+	Term       string    `json:"term"`     // "EOF" or "ERR" (sticky injected error after the last byte)
+	Mode       string    `json:"mode"`
+	More       []ReqSpec `json:"more,omitempty"`
+	Ops        []string  `json:"ops"`
+	ZeroBudget int       `json:"zero_budget"`
+	Choices    []int     `json:"choices"` // answers of the streams' choice points (Read and Close), in order
 }
+
+// ReqSpec describes one further request.
+type ReqSpec struct {
+	BodyLen int    `json:"body_len"`
+	Term    string `json:"term"`
+	Mode    string `json:"mode"`
+}
+
+const maxReqs = 3
+
+var reqNames = [maxReqs]string{"A", "B", "C"}
+
+// an operation of a history: request index * opStride + operation
+const opStride = 16
 
 type config struct {
 	id      int
@@ -249,10 +281,12 @@ type config struct {
 	wire    []byte // wire modes: the raw request text
 }
 
-func newConfig(id, bodyLen int, term error, mode string) *config {
+// newConfig: which (0 = A, 1 = B, 2 = C) selects the body content, so that the bodies of
+// requests that are alive together share no byte value at any offset.
+func newConfig(id, bodyLen int, term error, mode string, which int) *config {
 	c := &config{id: id, bodyLen: bodyLen, term: term, mode: mode}
 	if bodyLen >= 0 {
-		c.data = makeBody(bodyLen)
+		c.data = makeBody(bodyLen, which)
 	}
 	if isWire(mode) {
 		c.wire = wireText(mode, c.data)
@@ -267,11 +301,12 @@ func termName(e error) string {
 	return "ERR"
 }
 
-// body byte i is i mod 251: 251 is prime, so a shift by any buffer size (4096, 4095, 1 ...) changes bytes.
-func makeBody(n int) []byte {
+// body byte i of request A is i mod 251: 251 is prime, so a shift by any buffer size (4096, 4095, 1 ...)
+// changes bytes. Requests B and C start at 83 and 166.
+func makeBody(n, which int) []byte {
 	b := make([]byte, n)
 	for i := range b {
-		b[i] = byte(i % 251)
+		b[i] = byte((i + 83*which) % 251)
 	}
 	return b
 }
@@ -283,47 +318,83 @@ func (cfg *config) String() string {
 	return fmt.Sprintf("%d bytes then %s, %s", cfg.bodyLen, termName(cfg.term), cfg.mode)
 }
 
-func mkCase(cfg *config, ops []uint8, zb int, choices []int) Case {
-	c := Case{BodyLen: cfg.bodyLen, Term: termName(cfg.term), Mode: cfg.mode, ZeroBudget: zb, Choices: choices, Ops: []string{}}
+func opLabel(o uint8, multi bool) string {
+	if !multi {
+		return opNames[o%opStride]
+	}
+	return reqNames[o/opStride] + "." + opNames[o%opStride]
+}
+
+func mkCase(cfgs []*config, ops []uint8, zb int, choices []int) Case {
+	c := Case{BodyLen: cfgs[0].bodyLen, Term: termName(cfgs[0].term), Mode: cfgs[0].mode, ZeroBudget: zb, Choices: choices, Ops: []string{}}
+	for _, g := range cfgs[1:] {
+		c.More = append(c.More, ReqSpec{g.bodyLen, termName(g.term), g.mode})
+	}
 	if c.Choices == nil {
 		c.Choices = []int{}
 	}
 	for _, o := range ops {
-		c.Ops = append(c.Ops, opNames[o])
+		c.Ops = append(c.Ops, opLabel(o, len(cfgs) > 1))
 	}
 	return c
 }
 
-func parseCase(c Case) (*config, []uint8, error) {
+func parseReq(bodyLen int, termS, mode string, which int) (*config, error) {
 	var term error
-	switch c.Term {
+	switch termS {
 	case "EOF", "":
 		term = io.EOF
 	case "ERR":
 		term = errInjected
 	default:
-		return nil, nil, fmt.Errorf("unknown terminal %q", c.Term)
+		return nil, fmt.Errorf("unknown terminal %q", termS)
 	}
 	ok := false
 	for _, m := range allModes {
-		ok = ok || m == c.Mode
+		ok = ok || m == mode
 	}
 	if !ok {
-		return nil, nil, fmt.Errorf("unknown mode %q", c.Mode)
+		return nil, fmt.Errorf("unknown mode %q", mode)
 	}
-	if c.BodyLen > 1<<20 {
-		return nil, nil, fmt.Errorf("body too long")
+	if bodyLen > 1<<20 {
+		return nil, fmt.Errorf("body too long")
 	}
-	if isWire(c.Mode) && !wireOK(c.Mode, c.BodyLen, term) {
-		return nil, nil, fmt.Errorf("wire modes need a body length >= 0 (0 for %s) and terminal EOF", modeWireNone)
+	if isWire(mode) && !wireOK(mode, bodyLen, term) {
+		return nil, fmt.Errorf("wire modes need a body length >= 0 (0 for %s) and terminal EOF", modeWireNone)
 	}
-	cfg := newConfig(0, c.BodyLen, term, c.Mode)
+	return newConfig(which, bodyLen, term, mode, which), nil
+}
+
+func parseCase(c Case) ([]*config, []uint8, error) {
+	if len(c.More) > maxReqs-1 {
+		return nil, nil, fmt.Errorf("at most %d requests", maxReqs)
+	}
+	cfg, err := parseReq(c.BodyLen, c.Term, c.Mode, 0)
+	if err != nil {
+		return nil, nil, err
+	}
+	cfgs := []*config{cfg}
+	for i, m := range c.More {
+		g, err := parseReq(m.BodyLen, m.Term, m.Mode, i+1)
+		if err != nil {
+			return nil, nil, err
+		}
+		cfgs = append(cfgs, g)
+	}
 	var ops []uint8
 	for _, name := range c.Ops {
+		which := 0
+		if len(name) > 2 && name[1] == '.' {
+			which = int(name[0] - 'A')
+			name = name[2:]
+			if which < 0 || which >= len(cfgs) {
+				return nil, nil, fmt.Errorf("operation on a request that does not exist: %q", name)
+			}
+		}
 		found := false
 		for i, n := range opNames {
 			if n == name {
-				ops = append(ops, uint8(i))
+				ops = append(ops, uint8(which*opStride+i))
 				found = true
 			}
 		}
@@ -331,7 +402,7 @@ func parseCase(c Case) (*config, []uint8, error) {
 			return nil, nil, fmt.Errorf("unknown op %q", name)
 		}
 	}
-	return cfg, ops, nil
+	return cfgs, ops, nil
 }
 
 // ---------------------------------------------------------------------------
@@ -365,6 +436,7 @@ const (
 	oTypedNilInstalled
 	oDrainedComplete
 	oWireUnreadable
+	oUnderlyingCloseFails
 	nOutcomes
 )
 
@@ -377,6 +449,7 @@ var outcomeNames = [nOutcomes]string{
 	"close:first", "close:again-error", "close:again-nil", "close:first-returns-error", "op-skipped:body-is-nil",
 	"panic", "probe:peeking-wrapper-installed", "probe:typed-nil-body-installed", "epilogue:drained-to-terminal",
 	"harness:wire-request-unreadable",
+	"env:underlying-close-returns-error",
 }
 
 type stats struct {
@@ -420,72 +493,13 @@ const (
 
 // exec runs one history under one environment on the real code. It returns
 // ("","") when every clause held, otherwise the class and a description.
-func exec(cfg *config, ops []uint8, ch *choice.Chooser, zeroBudget int, st *stats, logf func(string, ...any)) (class, what string) {
-	req := &http.Request{Method: http.MethodPost, Header: http.Header{}}
-	var s *stream   // the underlying stream of the body, when the harness owns it (close counting applies)
-	var env *stream // the scripted stream of this execution: s, or the connection in wire modes
-	var orig io.ReadCloser
+//
+// cfgs has one entry per request; an operation addresses one request. Every
+// request has its own scripted stream and its own reference model: nothing one
+// request does is allowed to show in the observations of another.
+func exec(cfgs []*config, ops []uint8, ch *choice.Chooser, zeroBudget int, st *stats, logf func(string, ...any)) (class, what string) {
+	x := &xctx{ch: ch, zb: zeroBudget, st: st, logf: logf, multi: len(cfgs) > 1}
 	st.execs++
-	if isWire(cfg.mode) {
-		env = &stream{data: cfg.wire, term: io.EOF, c: ch, zeroBudget: zeroBudget}
-		rq, err := http.ReadRequest(bufio.NewReader(env))
-		if err != nil {
-			// not an oracle matter: the harness could not even obtain a request (reported in the evidence, expected 0)
-			st.outcomes[oWireUnreadable]++
-			return "", ""
-		}
-		req = rq
-		orig = rq.Body
-	} else if cfg.bodyLen >= 0 {
-		s = &stream{data: cfg.data, term: cfg.term, c: ch, zeroBudget: zeroBudget}
-		env = s
-		orig = s
-		req.Body = s
-	}
-	declared := 0 // 0 nothing declared, 1 positive, 2 zero
-	switch cfg.mode {
-	case modeWireCL:
-		declared = 1
-		if cfg.bodyLen == 0 {
-			declared = 2
-		}
-	case modeWireChunked, modeWireChunked2, modeWireNone:
-	case modeAbsent0:
-	case modeAbsentMinus:
-		req.ContentLength = -1
-	case modeZero:
-		req.Header.Set("Content-Length", "0")
-		declared = 2
-	case modePositive, modePositiveNH:
-		n := cfg.bodyLen
-		if n <= 0 {
-			n = 7
-		}
-		req.ContentLength = int64(n)
-		if cfg.mode == modePositive {
-			req.Header.Set("Content-Length", strconv.Itoa(n))
-		}
-		declared = 1
-	}
-	B := cfg.data
-	T := cfg.term
-	var m model
-	step := 0
-	cur := ""
-	probedUndeclared := false
-	wrapped := false
-	served := false
-
-	kind := func() int {
-		if req.Body == nil {
-			return kindNil
-		}
-		if orig != nil && req.Body == orig {
-			return kindRaw
-		}
-		return kindReplaced
-	}
-
 	defer func() {
 		if e := recover(); e != nil {
 			msg := fmt.Sprint(e)
@@ -494,294 +508,46 @@ func exec(cfg *config, ops []uint8, ch *choice.Chooser, zeroBudget int, st *stat
 			}
 			st.outcomes[oPanic]++
 			class = "panic"
-			// classifier of the one known defect: the request had no body object, was probed on the
-			// undeclared-length path (which installs a typed-nil body), and Close then dereferences nil
-			if cfg.bodyLen < 0 && probedUndeclared && strings.HasPrefix(cur, "Close") &&
+			// classifier of the (repaired) defect C17-nil-body-close-panics: the request had no body object, was
+			// probed on the undeclared-length path (which installs a typed-nil body), and Close dereferences nil
+			if q := x.curSess; q != nil && q.cfg.bodyLen < 0 && q.probedUndeclared && strings.Contains(x.cur, "Close") &&
 				strings.Contains(msg, "nil pointer dereference") {
 				class = "panic/close-after-probe-of-nil-body"
 			}
-			what = fmt.Sprintf("step %d %s panics: %s", step, cur, msg)
+			what = fmt.Sprintf("step %d %s panics: %s", x.step, x.cur, msg)
 			if logf != nil {
-				logf("  %-28s -> PANIC %s", cur, msg)
+				logf("  %-28s -> PANIC %s", x.cur, msg)
 			}
 		}
 	}()
-
-	invariants := func() (string, string) {
-		if s == nil {
-			return "", ""
+	for i, cfg := range cfgs {
+		q := newSess(x, i, cfg)
+		if q == nil {
+			return "", "" // wire request unreadable: counted, never an oracle matter
 		}
-		switch {
-		case !m.closed && s.closes != 0:
-			return "underlying-closed-without-close", fmt.Sprintf("step %d %s: underlying stream closed %d time(s) although the body was never closed", step, cur, s.closes)
-		case m.closed && s.closes == 0:
-			return "underlying-not-closed", fmt.Sprintf("step %d %s: body was closed but the underlying stream was not", step, cur)
-		case m.closed && s.closes > 1 && !m.closedRaw:
-			return "underlying-closed-twice", fmt.Sprintf("step %d %s: underlying stream closed %d times", step, cur, s.closes)
+		x.sess = append(x.sess, q)
+		if logf != nil {
+			logf("request %s: %s; zero-length-read budget %d", reqNames[i], cfg, zeroBudget)
 		}
-		return "", ""
-	}
-
-	record := func() {
-		st.transitions++
-		h := uint64(cfg.id)
-		h = mix(h, uint64(m.pos))
-		b := uint64(kind())
-		if m.termSeen {
-			b |= 4
-		}
-		if m.closed {
-			b |= 8
-		}
-		if m.closedRaw {
-			b |= 16
-		}
-		if m.hasLast {
-			b |= 32
-		}
-		if m.last {
-			b |= 64
-		}
-		if env != nil {
-			if env.termDelivered {
-				b |= 128
-			}
-			b |= uint64(env.closes) << 8
-			b |= uint64(env.zeroUsed) << 12
-			h = mix(h, uint64(env.pos))
-		}
-		h = mix(h, b)
-		st.states[h] = struct{}{}
-	}
-
-	apply := func(op uint8, label string) (string, string) {
-		step++
-		cur = label
-		switch {
-		case op == opHasBody:
-			before := kind()
-			got := runtime.HasBody(req)
-			// sentence 2 of the property, evaluated on the model state
-			var want bool
-			var why int
-			switch declared {
-			case 1:
-				want, why = true, oHasTrueDeclared
-			case 2:
-				want, why = false, oHasFalseDeclaredZero
-			default:
-				probedUndeclared = true
-				switch {
-				case cfg.bodyLen < 0:
-					want, why = false, oHasFalseNilBody
-				case m.closed:
-					want, why = false, oHasFalseClosed
-				case m.pos < len(B):
-					want, why = true, oHasTruePeeked
-				case m.pos > 0:
-					want, why = false, oHasFalseConsumed
-				case T == io.EOF:
-					want, why = false, oHasFalseEmpty
-				default:
-					want, why = false, oHasFalseErrBeforeFirstByte
-				}
-			}
-			if logf != nil {
-				logf("  %-28s -> %v", label, got)
-			}
-			// sentence 1 ("asking again gives the same answer") and sentence 2 disagree once the body
-			// has been consumed or closed between two probes: then neither answer is forced (MAY)
-			if m.hasLast && m.last != want {
-				st.outcomes[oHasMayAfterChange]++
-			} else {
-				if got != want {
-					cl := "hasbody-wrong-answer"
-					if m.hasLast {
-						cl = "hasbody-not-repeatable"
-					}
-					return cl, fmt.Sprintf("step %d HasBody = %v, the property forces %v (%s; yielded so far %d of %d bytes, previous answer known=%v)", step, got, want, outcomeNames[why], m.pos, len(B), m.hasLast)
-				}
-				st.outcomes[why]++
-			}
-			m.hasLast, m.last = true, got
-			if after := kind(); after != before {
-				if after == kindReplaced && before == kindRaw {
-					wrapped = true
-					st.outcomes[oWrapperInstalled]++
-				} else if after == kindReplaced && before == kindNil {
-					st.outcomes[oTypedNilInstalled]++
-				}
-			} else if before == kindReplaced && wrapped {
-				served = true
-			}
-		case op == opClose:
-			switch kind() {
-			case kindNil:
-				st.outcomes[oOpOnNilBodySkipped]++
-				if logf != nil {
-					logf("  %-28s -> skipped, request body is nil", label)
-				}
-			case kindRaw:
-				// the body is still the untouched original: a Close reaches the scripted stream directly.
-				// The harness itself must not close it twice.
-				if !m.closed {
-					_ = req.Body.Close()
-					m.closed, m.closedRaw = true, true
-					st.outcomes[oCloseFirst]++
-				}
-				if logf != nil {
-					logf("  %-28s -> (original body, no wrapper)", label)
-				}
-			default:
-				if wrapped {
-					served = true
-				}
-				err := req.Body.Close()
-				switch {
-				case !m.closed && err == nil:
-					st.outcomes[oCloseFirst]++
-				case !m.closed:
-					st.outcomes[oCloseFirstError]++
-				case err != nil:
-					st.outcomes[oCloseAgainError]++
-				default:
-					st.outcomes[oCloseAgainNil]++
-				}
-				m.closed = true
-				if logf != nil {
-					c := "n/a"
-					if s != nil {
-						c = strconv.Itoa(s.closes)
-					}
-					logf("  %-28s -> err=%v underlying closes=%s", label, err, c)
-				}
-			}
-		default:
-			n := opReadSize[op]
-			if kind() == kindNil {
-				st.outcomes[oOpOnNilBodySkipped]++
-				if logf != nil {
-					logf("  %-28s -> skipped, request body is nil", label)
-				}
-				break
-			}
-			if kind() == kindReplaced && wrapped {
-				served = true
-			}
-			buf := st.buf[:n]
-			k, err := req.Body.Read(buf)
-			if logf != nil {
-				show := ""
-				if k > 0 && k <= 4 {
-					show = fmt.Sprintf(" % x", buf[:k])
-				}
-				logf("  %-28s -> (%d, %v)%s", label, k, err, show)
-			}
-			if k < 0 || k > n {
-				return "read-count-out-of-range", fmt.Sprintf("step %d %s returned n=%d", step, label, k)
-			}
-			if m.closed {
-				if n == 0 {
-					st.outcomes[oReadZeroLenAfterClose]++
-					break
-				}
-				if k > 0 {
-					return "stale-data-after-close", fmt.Sprintf("step %d %s after Close returned %d byte(s) % x, err=%v", step, label, k, buf[:min(k, 8)], err)
-				}
-				if err == nil {
-					return "read-after-close-succeeds", fmt.Sprintf("step %d %s after Close returned (0, nil)", step, label)
-				}
-				st.outcomes[oReadAfterCloseFails]++
-				break
-			}
-			if k > 0 {
-				if m.termSeen {
-					return "bytes-after-terminal", fmt.Sprintf("step %d %s yielded %d byte(s) after the terminal condition had been yielded", step, label, k)
-				}
-				if m.pos+k > len(B) {
-					return "fabricated-bytes", fmt.Sprintf("step %d %s yielded %d byte(s) at offset %d of a %d-byte body", step, label, k, m.pos, len(B))
-				}
-				if !bytes.Equal(buf[:k], B[m.pos:m.pos+k]) {
-					i := 0
-					for buf[i] == B[m.pos+i] {
-						i++
-					}
-					return "wrong-bytes", fmt.Sprintf("step %d %s: byte at body offset %d is %#x, original is %#x", step, label, m.pos+i, buf[i], B[m.pos+i])
-				}
-				m.pos += k
-			}
-			switch {
-			case err == nil && k > 0:
-				st.outcomes[oReadData]++
-			case err == nil:
-				st.outcomes[oReadEmptyNil]++
-			case m.termSeen:
-				st.outcomes[oReadPastTerminal]++ // what follows the terminal is not forced, as long as it is no data
-			default:
-				if m.pos < len(B) {
-					return "premature-terminal", fmt.Sprintf("step %d %s returned error %q after %d of %d bytes: %d byte(s) lost", step, label, err, m.pos, len(B), len(B)-m.pos)
-				}
-				if !errors.Is(err, T) {
-					return "wrong-terminal", fmt.Sprintf("step %d %s ended the body with %q, the original terminal condition is %q", step, label, err, T)
-				}
-				m.termSeen = true
-				switch {
-				case k > 0:
-					st.outcomes[oReadDataWithTerm]++
-				case T == io.EOF:
-					st.outcomes[oReadTermEOF]++
-				default:
-					st.outcomes[oReadTermErr]++
-				}
-			}
-		}
-		if cl, w := invariants(); cl != "" {
-			return cl, w
-		}
-		record()
-		return "", ""
-	}
-
-	if logf != nil {
-		logf("configuration: %s; zero-length-read budget %d", cfg, zeroBudget)
 	}
 	for _, op := range ops {
-		if cl, w := apply(op, opNames[op]); cl != "" {
+		q := x.sess[op/opStride]
+		if cl, w := q.apply(op%opStride, opLabel(op, x.multi)); cl != "" {
 			return cl, w
 		}
 	}
-
-	// epilogue, the same after every history: drain, read past the end, close, read after close, close again
-	if kind() != kindNil {
-		if !m.closed {
-			limit := len(B) - m.pos + zeroBudget + 4
-			for i := 0; !m.termSeen; i++ {
-				if i >= limit {
-					return "stall", fmt.Sprintf("epilogue: %d reads of 4096 did not reach the terminal condition (yielded %d of %d bytes)", i, m.pos, len(B))
-				}
-				if cl, w := apply(opRead4096, "drain:Read(4096)"); cl != "" {
-					return cl, w
-				}
-			}
-			st.outcomes[oDrainedComplete]++
-			if cl, w := apply(opRead1, "past-end:Read(1)"); cl != "" {
-				return cl, w
-			}
-			if cl, w := apply(opClose, "Close (epilogue)"); cl != "" {
-				return cl, w
-			}
-		}
-		if cl, w := apply(opRead1, "after-close:Read(1)"); cl != "" {
-			return cl, w
-		}
-		if cl, w := apply(opClose, "Close again (epilogue)"); cl != "" {
-			return cl, w
-		}
-		if cl, w := apply(opRead4096, "after-close:Read(4096)"); cl != "" {
+	for _, q := range x.sess {
+		if cl, w := q.epilogue(); cl != "" {
 			return cl, w
 		}
 	}
-	if wrapped && served {
+	served := 0
+	for _, q := range x.sess {
+		if q.wrapped && q.served {
+			served++
+		}
+	}
+	if served == len(x.sess) {
 		st.nontrivial++
 	}
 	if n := len(ch.Trace); n > st.maxChoices {
@@ -790,17 +556,417 @@ func exec(cfg *config, ops []uint8, ch *choice.Chooser, zeroBudget int, st *stat
 	return "", ""
 }
 
+type xctx struct {
+	ch    *choice.Chooser
+	zb    int
+	st    *stats
+	logf  func(string, ...any)
+	multi bool
+
+	step    int
+	cur     string
+	curSess *sess
+	sess    []*sess
+}
+
+// record counts the transition and the state reached (all requests together).
+func (x *xctx) record() {
+	x.st.transitions++
+	h := uint64(0)
+	for _, q := range x.sess {
+		h = mix(h, q.hash())
+	}
+	x.st.states[h] = struct{}{}
+}
+
+// sess is one request with its environment and its reference model.
+type sess struct {
+	x    *xctx
+	name string
+	cfg  *config
+	req  *http.Request
+	s    *stream // the underlying stream of the body, when the harness owns it (close counting applies)
+	env  *stream // the scripted stream of this request: s, or the connection in wire modes
+	orig io.ReadCloser
+
+	declared         int // 0 nothing declared, 1 positive, 2 zero
+	m                model
+	probedUndeclared bool
+	wrapped          bool // a probe replaced the (non-nil) body by a wrapper
+	served           bool // ... and a later operation went through it
+}
+
+func newSess(x *xctx, idx int, cfg *config) *sess {
+	q := &sess{x: x, cfg: cfg, name: reqNames[idx]}
+	q.req = &http.Request{Method: http.MethodPost, Header: http.Header{}}
+	site := q.name + ".stream"
+	if isWire(cfg.mode) {
+		q.env = &stream{site: site, data: cfg.wire, term: io.EOF, c: x.ch, zeroBudget: x.zb}
+		rq, err := http.ReadRequest(bufio.NewReader(q.env))
+		if err != nil {
+			x.st.outcomes[oWireUnreadable]++
+			return nil
+		}
+		q.req = rq
+		q.orig = rq.Body
+	} else if cfg.bodyLen >= 0 {
+		q.s = &stream{site: site, data: cfg.data, term: cfg.term, c: x.ch, zeroBudget: x.zb}
+		q.env = q.s
+		q.orig = q.s
+		q.req.Body = q.s
+	}
+	switch cfg.mode {
+	case modeWireCL:
+		q.declared = 1
+		if cfg.bodyLen == 0 {
+			q.declared = 2
+		}
+	case modeWireChunked, modeWireChunked2, modeWireNone:
+	case modeAbsent0:
+	case modeAbsentMinus:
+		q.req.ContentLength = -1
+	case modeZero:
+		q.req.Header.Set("Content-Length", "0")
+		q.declared = 2
+	case modePositive, modePositiveNH:
+		n := cfg.bodyLen
+		if n <= 0 {
+			n = 7
+		}
+		q.req.ContentLength = int64(n)
+		if cfg.mode == modePositive {
+			q.req.Header.Set("Content-Length", strconv.Itoa(n))
+		}
+		q.declared = 1
+	}
+	return q
+}
+
+func (q *sess) kind() int {
+	if q.req.Body == nil {
+		return kindNil
+	}
+	if q.orig != nil && q.req.Body == q.orig {
+		return kindRaw
+	}
+	return kindReplaced
+}
+
+// invariants: "closing the body closes the underlying stream exactly once" - and nothing else closes it.
+// They hold whatever the underlying Close returned.
+func (q *sess) invariants() (string, string) {
+	s, m, x := q.s, &q.m, q.x
+	if s == nil {
+		return "", ""
+	}
+	switch {
+	case !m.closed && s.closes != 0:
+		return "underlying-closed-without-close", fmt.Sprintf("step %d %s: underlying stream of %s closed %d time(s) although that body was never closed", x.step, x.cur, q.name, s.closes)
+	case m.closed && s.closes == 0:
+		return "underlying-not-closed", fmt.Sprintf("step %d %s: body of %s was closed but the underlying stream was not", x.step, x.cur, q.name)
+	case m.closed && s.closes > 1 && !m.closedRaw:
+		return "underlying-closed-twice", fmt.Sprintf("step %d %s: underlying stream of %s closed %d times (its Close returned an error %d time(s))", x.step, x.cur, q.name, s.closes, s.closeErrs)
+	}
+	return "", ""
+}
+
+func (q *sess) hash() uint64 {
+	m := &q.m
+	h := uint64(q.cfg.id)
+	h = mix(h, uint64(m.pos))
+	b := uint64(q.kind())
+	if m.termSeen {
+		b |= 4
+	}
+	if m.closed {
+		b |= 8
+	}
+	if m.closedRaw {
+		b |= 16
+	}
+	if m.hasLast {
+		b |= 32
+	}
+	if m.last {
+		b |= 64
+	}
+	if env := q.env; env != nil {
+		if env.termDelivered {
+			b |= 128
+		}
+		b |= uint64(env.closes) << 8
+		b |= uint64(env.zeroUsed) << 12
+		b |= uint64(env.closeErrs) << 16
+		h = mix(h, uint64(env.pos))
+	}
+	return mix(h, b)
+}
+
+// apply executes one operation on this request and judges the observation.
+func (q *sess) apply(op uint8, label string) (string, string) {
+	x, st, logf, m, req := q.x, q.x.st, q.x.logf, &q.m, q.req
+	B, T := q.cfg.data, q.cfg.term
+	x.step++
+	x.cur = label
+	x.curSess = q
+	step := x.step
+	closeErrsBefore := 0
+	if q.s != nil {
+		closeErrsBefore = q.s.closeErrs
+	}
+	switch {
+	case op == opHasBody:
+		before := q.kind()
+		got := runtime.HasBody(req)
+		// sentence 2 of the property, evaluated on the model state
+		var want bool
+		var why int
+		switch q.declared {
+		case 1:
+			want, why = true, oHasTrueDeclared
+		case 2:
+			want, why = false, oHasFalseDeclaredZero
+		default:
+			q.probedUndeclared = true
+			switch {
+			case q.cfg.bodyLen < 0:
+				want, why = false, oHasFalseNilBody
+			case m.closed:
+				want, why = false, oHasFalseClosed
+			case m.pos < len(B):
+				want, why = true, oHasTruePeeked
+			case m.pos > 0:
+				want, why = false, oHasFalseConsumed
+			case T == io.EOF:
+				want, why = false, oHasFalseEmpty
+			default:
+				want, why = false, oHasFalseErrBeforeFirstByte
+			}
+		}
+		if logf != nil {
+			logf("  %-28s -> %v", label, got)
+		}
+		// sentence 1 ("asking again gives the same answer") and sentence 2 disagree once the body
+		// has been consumed or closed between two probes: then neither answer is forced (MAY)
+		if m.hasLast && m.last != want {
+			st.outcomes[oHasMayAfterChange]++
+		} else {
+			if got != want {
+				cl := "hasbody-wrong-answer"
+				if m.hasLast {
+					cl = "hasbody-not-repeatable"
+				}
+				return cl, fmt.Sprintf("step %d %s = %v, the property forces %v (%s; yielded so far %d of %d bytes, previous answer known=%v)", step, label, got, want, outcomeNames[why], m.pos, len(B), m.hasLast)
+			}
+			st.outcomes[why]++
+		}
+		m.hasLast, m.last = true, got
+		if after := q.kind(); after != before {
+			if after == kindReplaced && before == kindRaw {
+				q.wrapped = true
+				st.outcomes[oWrapperInstalled]++
+			} else if after == kindReplaced && before == kindNil {
+				st.outcomes[oTypedNilInstalled]++
+			}
+		} else if before == kindReplaced && q.wrapped {
+			q.served = true
+		}
+	case op == opClose:
+		switch q.kind() {
+		case kindNil:
+			st.outcomes[oOpOnNilBodySkipped]++
+			if logf != nil {
+				logf("  %-28s -> skipped, request body is nil", label)
+			}
+		case kindRaw:
+			// the body is still the untouched original: a Close reaches the scripted stream directly.
+			// The harness itself must not close it twice.
+			if !m.closed {
+				_ = req.Body.Close()
+				m.closed, m.closedRaw = true, true
+				st.outcomes[oCloseFirst]++
+			}
+			if logf != nil {
+				logf("  %-28s -> (original body, no wrapper)", label)
+			}
+		default:
+			if q.wrapped {
+				q.served = true
+			}
+			err := req.Body.Close()
+			switch {
+			case !m.closed && err == nil:
+				st.outcomes[oCloseFirst]++
+			case !m.closed:
+				st.outcomes[oCloseFirstError]++
+			case err != nil:
+				st.outcomes[oCloseAgainError]++
+			default:
+				st.outcomes[oCloseAgainNil]++
+			}
+			m.closed = true
+			if logf != nil {
+				c := "n/a"
+				if q.s != nil {
+					c = strconv.Itoa(q.s.closes)
+				}
+				logf("  %-28s -> err=%v underlying closes=%s", label, err, c)
+			}
+		}
+	default:
+		n := opReadSize[op]
+		if q.kind() == kindNil {
+			st.outcomes[oOpOnNilBodySkipped]++
+			if logf != nil {
+				logf("  %-28s -> skipped, request body is nil", label)
+			}
+			break
+		}
+		if q.kind() == kindReplaced && q.wrapped {
+			q.served = true
+		}
+		buf := st.buf[:n]
+		k, err := req.Body.Read(buf)
+		if logf != nil {
+			show := ""
+			if k > 0 && k <= 4 {
+				show = fmt.Sprintf(" % x", buf[:k])
+			}
+			logf("  %-28s -> (%d, %v)%s", label, k, err, show)
+		}
+		if k < 0 || k > n {
+			return "read-count-out-of-range", fmt.Sprintf("step %d %s returned n=%d", step, label, k)
+		}
+		if m.closed {
+			if n == 0 {
+				st.outcomes[oReadZeroLenAfterClose]++
+				break
+			}
+			if k > 0 {
+				return "stale-data-after-close", fmt.Sprintf("step %d %s after Close returned %d byte(s) % x, err=%v", step, label, k, buf[:min(k, 8)], err)
+			}
+			if err == nil {
+				return "read-after-close-succeeds", fmt.Sprintf("step %d %s after Close returned (0, nil)", step, label)
+			}
+			st.outcomes[oReadAfterCloseFails]++
+			break
+		}
+		if k > 0 {
+			if m.termSeen {
+				return "bytes-after-terminal", fmt.Sprintf("step %d %s yielded %d byte(s) % x after the terminal condition had been yielded", step, label, k, buf[:min(k, 8)])
+			}
+			if m.pos+k > len(B) {
+				return "fabricated-bytes", fmt.Sprintf("step %d %s yielded %d byte(s) % x at offset %d of a %d-byte body", step, label, k, buf[:min(k, 8)], m.pos, len(B))
+			}
+			if !bytes.Equal(buf[:k], B[m.pos:m.pos+k]) {
+				i := 0
+				for buf[i] == B[m.pos+i] {
+					i++
+				}
+				return "wrong-bytes", fmt.Sprintf("step %d %s: byte at body offset %d is %#x, original is %#x", step, label, m.pos+i, buf[i], B[m.pos+i])
+			}
+			m.pos += k
+		}
+		switch {
+		case err == nil && k > 0:
+			st.outcomes[oReadData]++
+		case err == nil:
+			st.outcomes[oReadEmptyNil]++
+		case m.termSeen:
+			st.outcomes[oReadPastTerminal]++ // what follows the terminal is not forced, as long as it is no data
+		default:
+			if m.pos < len(B) {
+				return "premature-terminal", fmt.Sprintf("step %d %s returned error %q after %d of %d bytes: %d byte(s) lost", step, label, err, m.pos, len(B), len(B)-m.pos)
+			}
+			if !errors.Is(err, T) {
+				return "wrong-terminal", fmt.Sprintf("step %d %s ended the body with %q, the original terminal condition is %q", step, label, err, T)
+			}
+			m.termSeen = true
+			switch {
+			case k > 0:
+				st.outcomes[oReadDataWithTerm]++
+			case T == io.EOF:
+				st.outcomes[oReadTermEOF]++
+			default:
+				st.outcomes[oReadTermErr]++
+			}
+		}
+	}
+	if q.s != nil && q.s.closeErrs > closeErrsBefore {
+		st.outcomes[oUnderlyingCloseFails]++
+	}
+	// the close-count clauses are evaluated on every request after every operation: an operation on one
+	// request must not close (or re-close) the stream of another
+	for _, o := range x.sess {
+		if cl, w := o.invariants(); cl != "" {
+			return cl, w
+		}
+	}
+	if len(x.sess) == 0 { // single request being built (never the case) - keep the own check
+		if cl, w := q.invariants(); cl != "" {
+			return cl, w
+		}
+	}
+	x.record()
+	return "", ""
+}
+
+// epilogue, the same after every history: drain, read past the end, close, read after close, close again
+func (q *sess) epilogue() (string, string) {
+	if q.kind() == kindNil {
+		return "", ""
+	}
+	m, B := &q.m, q.cfg.data
+	pre := ""
+	if q.x.multi {
+		pre = q.name + "."
+	}
+	if !m.closed {
+		limit := len(B) - m.pos + q.x.zb + 4
+		for i := 0; !m.termSeen; i++ {
+			if i >= limit {
+				return "stall", fmt.Sprintf("epilogue of %s: %d reads of 4096 did not reach the terminal condition (yielded %d of %d bytes)", q.name, i, m.pos, len(B))
+			}
+			if cl, w := q.apply(opRead4096, pre+"drain:Read(4096)"); cl != "" {
+				return cl, w
+			}
+		}
+		q.x.st.outcomes[oDrainedComplete]++
+		if cl, w := q.apply(opRead1, pre+"past-end:Read(1)"); cl != "" {
+			return cl, w
+		}
+		if cl, w := q.apply(opClose, pre+"Close (epilogue)"); cl != "" {
+			return cl, w
+		}
+	}
+	if cl, w := q.apply(opRead1, pre+"after-close:Read(1)"); cl != "" {
+		return cl, w
+	}
+	if cl, w := q.apply(opClose, pre+"Close again (epilogue)"); cl != "" {
+		return cl, w
+	}
+	if cl, w := q.apply(opRead4096, pre+"after-close:Read(4096)"); cl != "" {
+		return cl, w
+	}
+	return "", ""
+}
+
 // check is the pure per-case function used by the explorer's failure path and by --replay.
 func check(c Case, logf func(string, ...any)) (string, string) {
-	cfg, ops, err := parseCase(c)
+	cfgs, ops, err := parseCase(c)
 	if err != nil {
 		return "bad-replay-file", err.Error()
 	}
-	return exec(cfg, ops, choice.Replay(c.Choices), c.ZeroBudget, newStats(), logf)
+	return exec(cfgs, ops, choice.Replay(c.Choices), c.ZeroBudget, newStats(), logf)
 }
 
 // ---------------------------------------------------------------------------
 // exploration
+
+type bodySpec struct {
+	n    int // -1 = nil body
+	term error
+}
 
 type sweep struct {
 	name       string
@@ -809,14 +975,22 @@ type sweep struct {
 	minLen     int // histories of length minLen..maxLen
 	maxLen     int
 	extended   bool // alphabet of 8 operations, and only histories that use Read(4095) or Read(8192) (the others are covered by the base sweeps)
-	bound      int  // deviations of the underlying stream from its default answers; -1 = unbounded
+	bound      int  // deviations of the streams from their default answers; -1 = unbounded
 	zeroBudget int
+
+	// several-request sweeps: every ordered tuple of nreq bodies from multi, operations multiOps on each request
+	nreq  int
+	multi []bodySpec
 }
+
+// operations of the several-request histories (per request)
+var multiOps = []uint8{opHasBody, opRead1, opRead4096, opClose}
 
 // varied: the history probes, reads and closes (only used to pick informative samples for the evidence file).
 func varied(ops []uint8) bool {
 	var h, rd, c bool
 	for _, o := range ops {
+		o %= opStride
 		h = h || o == opHasBody
 		c = c || o == opClose
 		rd = rd || opReadSize[o] > 0
@@ -826,6 +1000,22 @@ func varied(ops []uint8) bool {
 
 func allSeqs(sw sweep) [][]uint8 {
 	var out [][]uint8
+	if sw.nreq > 1 {
+		var alpha []uint8
+		for q := 0; q < sw.nreq; q++ {
+			for _, o := range multiOps {
+				alpha = append(alpha, uint8(q*opStride)+o)
+			}
+		}
+		for _, s := range enum.Seqs(len(alpha), sw.minLen, sw.maxLen) {
+			q := make([]uint8, len(s))
+			for i, v := range s {
+				q[i] = alpha[v]
+			}
+			out = append(out, q)
+		}
+		return out
+	}
 	alpha := nBaseOps
 	if sw.extended {
 		alpha = nOps
@@ -842,6 +1032,13 @@ func allSeqs(sw sweep) [][]uint8 {
 		}
 	}
 	return out
+}
+
+func specName(b bodySpec) string {
+	if b.n < 0 {
+		return "nil"
+	}
+	return fmt.Sprintf("%d+%s", b.n, termName(b.term))
 }
 
 func main() {
@@ -871,24 +1068,31 @@ func main() {
 	undeclared := []string{modeAbsent0, modeAbsentMinus}
 	declared := []string{modeZero, modePositive, modePositiveNH}
 	wire := []string{modeWireCL, modeWireChunked, modeWireChunked2, modeWireNone}
+	// bodies that collide when something is shared between requests: byte-less (EOF at once / error before the
+	// first byte) next to bodies with content (contents of A, B, C are disjoint)
+	collide := []bodySpec{{0, io.EOF}, {0, errInjected}, {1, io.EOF}, {3, io.EOF}, {2, errInjected}}
+	collideNil := append([]bodySpec{{-1, io.EOF}}, collide...)
 	var sweeps []sweep
 	declBodies := append(append([]int{}, small...), 4097)
 	if r.Thorough() {
 		sweeps = []sweep{
-			{"small-bodies/undeclared/every-chunking", small, undeclared, 0, 5, false, -1, 2},
-			{"buffer-sized-bodies/undeclared", big, undeclared, 0, 5, false, 2, 1},
-			{"declared-length", declBodies, declared, 0, 5, false, 1, 1},
-			{"net/http-delivered", []int{0, 1, 2, 3, 4096, 4097}, wire, 0, 5, false, 1, 1},
-			{"extended-read-sizes/undeclared", []int{0, 1, 3, 4095, 4096, 4097, 8193, 12289}, undeclared, 1, 4, true, 1, 1},
-			{"small-bodies/undeclared/len6", small, undeclared, 6, 6, false, 2, 1},
-			{"small-bodies/undeclared/len7", small, undeclared, 7, 7, false, 1, 1},
+			{name: "small-bodies/undeclared/every-chunking", bodies: small, modes: undeclared, maxLen: 5, bound: -1, zeroBudget: 2},
+			{name: "two-requests/undeclared", nreq: 2, multi: collideNil, maxLen: 5, bound: 1, zeroBudget: 1},
+			{name: "three-requests/undeclared", nreq: 3, multi: collide[:4], maxLen: 4, bound: 1, zeroBudget: 0},
+			{name: "buffer-sized-bodies/undeclared", bodies: big, modes: undeclared, maxLen: 5, bound: 2, zeroBudget: 1},
+			{name: "declared-length", bodies: declBodies, modes: declared, maxLen: 5, bound: 1, zeroBudget: 1},
+			{name: "net/http-delivered", bodies: []int{0, 1, 2, 3, 4096, 4097}, modes: wire, maxLen: 5, bound: 1, zeroBudget: 1},
+			{name: "extended-read-sizes/undeclared", bodies: []int{0, 1, 3, 4095, 4096, 4097, 8193, 12289}, modes: undeclared, minLen: 1, maxLen: 4, extended: true, bound: 1, zeroBudget: 1},
+			{name: "small-bodies/undeclared/len6", bodies: small, modes: undeclared, minLen: 6, maxLen: 6, bound: 2, zeroBudget: 1},
+			{name: "small-bodies/undeclared/len7", bodies: small, modes: undeclared, minLen: 7, maxLen: 7, bound: 1, zeroBudget: 1},
 		}
 	} else {
 		sweeps = []sweep{
-			{"small-bodies/undeclared", small, undeclared, 0, 5, false, 2, 1},
-			{"buffer-sized-bodies/undeclared", big[1:], undeclared, 0, 4, false, 1, 1},
-			{"declared-length", declBodies, declared, 0, 3, false, 1, 1},
-			{"net/http-delivered", []int{0, 1, 3, 4097}, wire, 0, 4, false, 1, 1},
+			{name: "small-bodies/undeclared", bodies: small, modes: undeclared, maxLen: 5, bound: 2, zeroBudget: 1},
+			{name: "two-requests/undeclared", nreq: 2, multi: collide, maxLen: 4, bound: 1, zeroBudget: 1},
+			{name: "buffer-sized-bodies/undeclared", bodies: big[1:], modes: undeclared, maxLen: 4, bound: 1, zeroBudget: 1},
+			{name: "declared-length", bodies: declBodies, modes: declared, maxLen: 3, bound: 1, zeroBudget: 1},
+			{name: "net/http-delivered", bodies: []int{0, 1, 3, 4097}, modes: wire, maxLen: 4, bound: 1, zeroBudget: 1},
 		}
 	}
 
@@ -917,19 +1121,37 @@ func main() {
 	sweepInfo := map[string]any{}
 	completed := []string{}
 	for _, sw := range sweeps {
-		var cfgs []*config
-		for _, bl := range sw.bodies {
-			terms := []error{io.EOF, errInjected}
-			if bl < 0 {
-				terms = terms[:1]
+		var cfgs [][]*config // one tuple of request configurations per entry
+		if sw.nreq > 1 {
+			// request A is undeclared-unknown (chunked), B undeclared with ContentLength 0, C like A
+			modes := [maxReqs]string{modeAbsentMinus, modeAbsent0, modeAbsentMinus}
+			sizes := make([]int, sw.nreq)
+			for i := range sizes {
+				sizes[i] = len(sw.multi)
 			}
-			for _, t := range terms {
-				for _, md := range sw.modes {
+			enum.Product(sizes, func(idx []int) {
+				var tuple []*config
+				for which, bi := range idx {
 					cfgID++
-					if isWire(md) && !wireOK(md, bl, t) {
-						continue
+					b := sw.multi[bi]
+					tuple = append(tuple, newConfig(cfgID, b.n, b.term, modes[which], which))
+				}
+				cfgs = append(cfgs, tuple)
+			})
+		} else {
+			for _, bl := range sw.bodies {
+				terms := []error{io.EOF, errInjected}
+				if bl < 0 {
+					terms = terms[:1]
+				}
+				for _, t := range terms {
+					for _, md := range sw.modes {
+						cfgID++
+						if isWire(md) && !wireOK(md, bl, t) {
+							continue
+						}
+						cfgs = append(cfgs, []*config{newConfig(cfgID, bl, t, md, 0)})
 					}
-					cfgs = append(cfgs, newConfig(cfgID, bl, t, md))
 				}
 			}
 		}
@@ -976,11 +1198,30 @@ func main() {
 		if sw.bound < 0 {
 			bound = "unbounded"
 		}
-		sweepInfo[sw.name] = map[string]any{
-			"body_lengths(-1=nil)": sw.bodies, "terminals": []string{"EOF", "ERR(sticky, after the last byte)"}, "modes": sw.modes,
-			"configurations": len(cfgs), "history_length": []int{sw.minLen, sw.maxLen}, "extended_alphabet": sw.extended, "histories": len(seqs),
+		info := map[string]any{
+			"configurations": len(cfgs), "history_length": []int{sw.minLen, sw.maxLen}, "histories": len(seqs),
 			"stream_deviation_bound": bound, "zero_length_read_budget": sw.zeroBudget, "executions": swExecs, "wall_s": time.Since(t0).Seconds(),
 		}
+		if sw.nreq > 1 {
+			var names []string
+			for _, b := range sw.multi {
+				names = append(names, specName(b))
+			}
+			var on []string
+			for _, o := range multiOps {
+				on = append(on, opNames[o])
+			}
+			info["requests_alive_together"] = sw.nreq
+			info["body_alphabet(len+terminal), every ordered tuple"] = names
+			info["operations_per_request"] = on
+			info["modes"] = "A: absent-unknown, B: absent, C: absent-unknown (all on the undeclared-length path)"
+		} else {
+			info["body_lengths(-1=nil)"] = sw.bodies
+			info["terminals"] = []string{"EOF", "ERR(sticky, after the last byte)"}
+			info["modes"] = sw.modes
+			info["extended_alphabet"] = sw.extended
+		}
+		sweepInfo[sw.name] = info
 		if !r.Cut() && !cut.Load() {
 			completed = append(completed, sw.name)
 		}
@@ -996,16 +1237,18 @@ func main() {
 		}
 	}
 	r.Set("operations", opNames[:])
-	r.Set("epilogue", "after every history: Read(4096) until the terminal condition, Read(1), Close, Read(1), Close, Read(4096) - all judged by the same oracle")
-	r.Set("stream_choice_point", "every Read the underlying stream receives before it has delivered its terminal: full | 1 byte | all but one | all + terminal together | (0,nil)")
+	r.Set("epilogue", "after every history, for every request in turn: Read(4096) until the terminal condition, Read(1), Close, Read(1), Close, Read(4096) - all judged by the same oracle")
+	r.Set("stream_choice_point", "every Read the underlying stream receives before it has delivered its terminal: full | 1 byte | all but one | all + terminal together | (0,nil); every Close it receives: nil | error (the stream counts as closed either way)")
+	r.Set("several_requests", "sweeps 'two-requests' / 'three-requests': the requests are created first and stay alive together in one process; histories interleave their operations in every order; bodies of A, B, C have disjoint byte values; each request has its own stream, close counter and reference model, and the close-count clauses of ALL requests are evaluated after every operation")
 	r.Set("sweeps", sweepInfo)
 	r.Set("sweeps_completed", completed)
 	r.Set("max_choice_points_in_one_execution", total.maxChoices)
-	r.Set("state_definition", "distinct (configuration, model state {yielded, terminal seen, closed, last probe answer}, observable implementation/environment state {request body kind nil|original|replaced, underlying offset, terminal delivered, closes, zero-length reads used}) reached after some operation")
+	r.Set("state_definition", "distinct tuples, over the requests of the execution, of (configuration, model state {yielded, terminal seen, closed, last probe answer}, observable implementation/environment state {request body kind nil|original|replaced, underlying offset, terminal delivered, closes, close errors, zero-length reads used}) reached after some operation")
 	r.Assume(
-		"the underlying stream is well behaved in the sense of io.Reader: its terminal condition (EOF or an error after byte k) is sticky, and it returns an error when read after Close",
+		"the underlying stream is well behaved in the sense of io.Reader: its terminal condition (EOF or an error after byte k) is sticky, and it returns an error when read after Close (whether or not that Close reported an error)",
 		"requests are consistent: a Content-Length header accompanies ContentLength only with the same value; ContentLength 0 or -1 without header is 'no length declared'",
 		"a HasBody answer is forced only while sentence 1 (same answer as before) and sentence 2 (positive declared length, or undeclared and a byte can be read) agree; after consumption or Close between two probes it is MAY",
+		"several-request histories run their operations one after the other on one goroutine (no concurrent calls into the library); worker goroutines of the explorer run other executions in the same process at the same time",
 	)
-	r.Finish("one execution = (configuration, operation history incl. fixed epilogue, choice sequence of the underlying stream); the enumerators never repeat a triple inside a sweep (every history of length 0..depth once, choice.Explore visits each choice sequence within the bound once). Non-trivial = a HasBody call replaced the request body by a peeking wrapper around a non-nil stream AND at least one later HasBody/Read/Close was served through that wrapper", !cut.Load())
+	r.Finish("one execution = (configuration tuple of 1-3 requests, interleaved operation history incl. fixed epilogue per request, choice sequence of the underlying streams' Read and Close answers); the enumerators never repeat a triple inside a sweep (every history of the stated lengths once, choice.Explore visits each choice sequence within the bound once). Non-trivial = for EVERY request of the execution a HasBody call replaced the body by a peeking wrapper around a non-nil stream AND at least one later HasBody/Read/Close of that request was served through the wrapper", !cut.Load())
 }
